@@ -213,6 +213,15 @@ func cmdMeta(args []string) error {
 				return out
 			}
 			rel("rename", "samerows", b, emitQ(build(ren(bq.proj), ren(bq.cls), base, bq.tail), cfgs[r.intn(len(cfgs))]))
+			// the SELECT list written in another order: the same rows, each value under the same column name
+			if len(bq.proj) > 1 {
+				perm := r.perm(len(bq.proj))
+				var pj []string
+				for _, i := range perm {
+					pj = append(pj, bq.proj[i])
+				}
+				rel("projection-order", "permcols", b, emitQ(build(pj, bq.cls, base, bq.tail), cfgs[r.intn(len(cfgs))]))
+			}
 			// the same data partitioned over two and three graphs
 			rel("partition2", "same", b, emitQ(build(bq.proj, bq.cls, parts2, bq.tail), cfgs[r.intn(len(cfgs))]))
 			rel("partition3", "same", b, emitQ(build(bq.proj, bq.cls, parts3, bq.tail), cfgs[r.intn(len(cfgs))]))
